@@ -46,6 +46,9 @@ def _mean(data, nodata):
 @njit
 def lstsq(x: np.ndarray, y: np.ndarray):
     """Simple ordinary Least Squares regression."""
+    # the normal equations cancel many digits: always accumulate in float64
+    x = x.astype(np.float64)
+    y = y.astype(np.float64)
     n = x.size
     x_sum = 0.0
     y_sum = 0.0
